@@ -47,7 +47,8 @@ def make_case(seed, shard, i):
     rows = lang.data_rows(r, header_prob=0.0 if headerless else 0.85)
     if not any(len(x) for x in rows):
         rows.append(["1", "2", "x", "y"])
-    return {"members": members, "rows": rows}
+    policy = r.choice([["collect", "print"], ["collect", "print"], ["collect", "stop", "fail", "print"], ["collect", "fail"]])
+    return {"members": members, "rows": rows, "policy": policy}
 
 
 def member_summary(c, events, lines, printed):
@@ -66,11 +67,11 @@ def member_summary(c, events, lines, printed):
     }
 
 
-def standalone(prog, ident, path, agg):
+def standalone(prog, ident, path, agg, policy):
     from vfy import cps, env, hooks
 
     text = cps.member_text(prog, ident=ident).replace("$[", f"${path}[", 1)
-    c, cap = env.new_csvpath(["collect", "print"])
+    c, cap = env.new_csvpath(list(policy))
     with hooks.recording(agg) as rec:
         try:
             lines = c.collect(text)
@@ -118,20 +119,21 @@ def run_case(case, agg, r):
     members, rows = case["members"], case["rows"]
     n = len(members)
     cps.reset_sandbox()
-    env.write_config(".", csvpath_policy=["collect", "print"])
+    policy = case.get("policy", ["collect", "print"])
+    env.write_config(".", csvpath_policy=policy)
     cs0 = env.new_csvpaths()
     cps.add_file(cs0, "data", rows)
     path = cs0.file_manager.get_named_file("data")
     refs = []
     for j, p in enumerate(members):
-        s, err = standalone(p, f"m{j}", path, agg)
+        s, err = standalone(p, f"m{j}", path, agg, policy)
         if err:
             return "undecided", None
         refs.append(s)
     orders = list(itertools.permutations(range(n)))
     if len(orders) > 6:
         orders = [orders[0]] + r.sample(orders[1:], 5)
-    w0 = {"members": [cps.member_text(p, f"m{j}") for j, p in enumerate(members)], "rows": rows}
+    w0 = {"members": [cps.member_text(p, f"m{j}") for j, p in enumerate(members)], "rows": rows, "policy": policy}
     for order in orders:
         for method, kw in [(m, {}) for m in cps.METHODS] + [("next_by_line", {"if_all_agree": True})]:
             out, lines, decisions, exc = run_group(order, members, method, kw, agg)
